@@ -95,6 +95,7 @@ func newScanner() *scanner {
 	// scan.reset by design doesn't set bytes to zero
 	scan.bytes = 0
 	scan.reset()
+	verifAcquireScan(scan)
 	return scan
 }
 
@@ -103,6 +104,7 @@ func freeScanner(scan *scanner) {
 	if len(scan.parseState) > 1024 {
 		scan.parseState = nil
 	}
+	verifReleaseScan(scan)
 	scannerPool.Put(scan)
 }
 
